@@ -355,6 +355,11 @@ class FnTranslator:
             op = n["opcode"]
             if op in CMP:
                 a, b = self.expr(n["inner"][0]), self.expr(n["inner"][1])
+                # `e < eslINFINITY` / `eslINFINITY > e`: "e is below +infinity".  eslINFINITY has no real value (the ℝ
+                # instance keeps `Num.inf` opaque), so this test is its own class operation: `x < inf` on binary64,
+                # `true` on ℝ (every real number is below +infinity).
+                if (op == "<" and b == "Num.inf") or (op == ">" and a == "Num.inf"):
+                    return "(Num.ltInf %s = true)" % self.atomize(a if op == "<" else b)
                 return {"<": "(%s < %s)" % (a, b), "<=": "(%s ≤ %s)" % (a, b),
                         ">": "(%s < %s)" % (b, a), ">=": "(%s ≤ %s)" % (b, a),
                         "==": "(Num.eqb %s %s = true)" % (self.atomize(a), self.atomize(b)),
